@@ -78,6 +78,10 @@ def main(argv=None):
     known_keys = {k["key"]: k for k in known}
 
     rdir = os.path.join(VERIF, "replays", pid)
+    if os.path.isdir(rdir):  # replays of earlier runs are stale
+        for fn in os.listdir(rdir):
+            if fn.endswith(".json"):
+                os.unlink(os.path.join(rdir, fn))
     new_viol = 0
     lines = []
     for key in sorted(rec.viol):
